@@ -23,6 +23,7 @@ import (
 	"github.com/go-openapi/runtime/middleware"
 	"github.com/go-openapi/runtime/middleware/untyped"
 
+	"verif/gen"
 	"verif/mon"
 	"verif/props/c07/accept"
 )
@@ -34,10 +35,10 @@ func init() {
 		Rule: "seeded Swagger 2.0 descriptions with one operation per consumes-list shape (empty, concrete types, type/*, */*, one or several entries with parameters, a bare type next to its parameterised spelling, mixes; declared per operation or at spec level, in one description in ten at both levels with different lists; one request in fifty carries a second Content-Type line; four operations in five declare a body parameter, one in five declares no parameter at all; one operation in seven declares a formData parameter instead and mostly consumes form media types) x all 7 methods, " +
 			"API default media type present (plain or with parameters)/absent, Accept header absent / acceptable / admitting nothing the operation produces, tagged consumers registered API-wide for (most of) 14 concrete types (the two form media types among them) and optionally for wildcard keys; requests with Content-Type drawn from: admitted (exactly / through the default / through an entry with parameters / through type/* / through */*), " +
 			"non-admitted pool types, near misses of admitted types, literal wildcard types, absent, empty, malformed and grey-zone values, each spelled plain / with parameters / with OWS around ';' / in mixed letter case; body signalled by Content-Length (with and without the header line), " +
-			"by ContentLength=-1 (chunked), by a real Content-Length or chunked request over a loopback server, or absent (no body, Content-Length: 0, empty chunked stream). Every case is executed through both entry points (untyped pipeline via RoutesHandler, and Context.BindValidRequest with a RequestBinder that decodes with route.Consumer). " +
+			"by ContentLength=-1 (chunked, or without any transfer coding), by a real Content-Length or chunked request over a loopback server, or absent (no body, Content-Length: 0, empty stream of unknown length). Every case is executed through both entry points (untyped pipeline via RoutesHandler, and Context.BindValidRequest with a RequestBinder that decodes with route.Consumer - called directly on a Context made by NewContext, or, for half of the requests, from the operation handler of a RoutableAPI (gen.GeneratedAPI: RouteInfo, BindValidRequest, Respond) served by a Context made by NewRoutableContext, the constructor generated servers use). One description in ten declares no produces and has no default producer. " +
 			"oracle written from the statement: own RFC 7231 media-type classifier and own admission function. non-trivial = the request carries a body, or is body-less but carries a Content-Type that the gate would refuse; distinct by (consumes shape, default present, admission class, header kind+spelling, body signalling, method)",
 		Assumptions: []string{
-			"consumes entries and the API default are lower case; entries with parameters are spelled 'type/subtype;name=value' or 'type/subtype; name=value' (whitespace before ';' - legal OWS of RFC 7231 3.1.1.1 - is generated once accept.JudgeOWSBeforeSemicolon is set: TRIAGE-PENDING C06-2); wildcard entries carry no parameters",
+			"consumes entries and the API default are lower case; entries with parameters are spelled 'type/subtype;name=value', 'type/subtype; name=value' or with whitespace before the ';' (legal OWS of RFC 7231 3.1.1.1: the same media type); wildcard entries carry no parameters",
 			"a body with no Content-Type header is judged as application/octet-stream (runtime.DefaultMime, RFC 7231 3.1.1.5); an empty header value may be treated as absent or as unparsable",
 			"header values whose type/subtype part is a valid token pair but whose parameter section is irregular (trailing ';', parameter without value, duplicate names, RFC 2231 continuations, quoted-pairs, '{' '}' in the type) are a grey zone: either 400 or the reading 'media type = part before the first ;' is accepted; only safety (no consumer/handler for a non-admitted type, right consumer) and agreement of the entry points are judged there",
 			"when no consumer is registered API-wide under the exact media type of an admitted request, the status is not judged (the statement presupposes a registered consumer); only 'no consumer other than a matching wildcard-key one ran' and agreement are judged",
@@ -66,7 +67,7 @@ type Case struct {
 	Method     string   `json:"method"`           // GET PUT POST DELETE OPTIONS HEAD PATCH
 	HasCT      bool     `json:"has_ct"`           // Content-Type header line present
 	CT         mon.Q    `json:"ct"`               // its value
-	BodyMode   string   `json:"body_mode"`        // cl | cl+hdr | chunked | none | cl0+hdr | chunked-empty | tcp-cl | tcp-chunked | tcp-none
+	BodyMode   string   `json:"body_mode"`        // cl | cl+hdr | chunked | unknown-length | none | cl0+hdr | chunked-empty | unknown-length-empty | tcp-cl | tcp-chunked | tcp-none
 	Payload    mon.Q    `json:"payload"`          // body bytes (ignored for body-less modes)
 	Shape      string   `json:"shape,omitempty"`  // generator label of the consumes shape (coverage only)
 	Intent     string   `json:"intent,omitempty"` // generator label of the header category (coverage only)
@@ -83,11 +84,18 @@ type Case struct {
 	// HasCT2/CT2: a second Content-Type field line
 	HasCT2 bool  `json:"has_second_ct,omitempty"`
 	CT2    mon.Q `json:"second_ct,omitempty"`
+	// NoProduces: neither the description nor the operation declares produces, the API has no default producer, and
+	// the operation answers 204
+	NoProduces bool `json:"no_produces,omitempty"`
+	// Entry2: how the generated-server entry point is driven: "" = RouteInfo + BindValidRequest called directly on a
+	// Context made by NewContext; "routable" = the operation handler of a RoutableAPI (RouteInfo, BindValidRequest,
+	// Respond) served by the router of a Context made by NewRoutableContext
+	Entry2 string `json:"entry2,omitempty"`
 }
 
 const urlencoded, multipart = "application/x-www-form-urlencoded", "multipart/form-data"
 
-// acceptClass tells whether the Accept header admits the one type every operation produces:
+// acceptClass tells whether the Accept header admits the one type the operation produces (none with no_produces):
 // absent | acceptable | unacceptable | unjudged (outside the grammar C07's reference is defined on).
 func acceptClass(c *Case) string {
 	if !c.HasAccept {
@@ -97,7 +105,11 @@ func acceptClass(c *Case) string {
 	if !p.Judged {
 		return "unjudged"
 	}
-	if accept.Select(true, p.Ranges, []string{"application/json"}, true).None {
+	offers := []string{"application/json"}
+	if c.NoProduces {
+		offers = nil // nothing is declared: no header admits anything
+	}
+	if accept.Select(true, p.Ranges, offers, true).None {
 		return "unacceptable"
 	}
 	return "acceptable"
@@ -117,7 +129,7 @@ var wildcardKeys = []string{"*/*", "application/*", "text/*", "image/*"}
 
 func bodyModeHasBody(mode string) bool {
 	switch mode {
-	case "cl", "cl+hdr", "chunked", "tcp-cl", "tcp-chunked":
+	case "cl", "cl+hdr", "chunked", "unknown-length", "tcp-cl", "tcp-chunked":
 		return true
 	}
 	return false
@@ -417,6 +429,9 @@ type env struct {
 	ctx     *middleware.Context
 	handler http.Handler
 	nops    int
+	// the same registrations behind a RoutableAPI, served by a Context made by NewRoutableContext
+	rctx     *middleware.Context
+	rhandler http.Handler
 
 	mu  sync.Mutex
 	cur *observation
@@ -495,7 +510,7 @@ type opSpec struct {
 
 // buildEnv creates a description with operations /o<i> (all seven methods each), op i consuming
 // ops[i].consumes (or, with global, the spec-level list ops[0].consumes and no per-operation list).
-func buildEnv(ops []opSpec, global bool, def string, registered []string, specConsumes ...string) (*env, error) {
+func buildEnv(ops []opSpec, global bool, def string, registered []string, noProduces bool, specConsumes ...string) (*env, error) {
 	e := &env{nops: len(ops)}
 	paths := map[string]interface{}{}
 	for i, op := range ops {
@@ -504,6 +519,9 @@ func buildEnv(ops []opSpec, global bool, def string, registered []string, specCo
 			o := map[string]interface{}{
 				"operationId": fmt.Sprintf("o%d%s", i, strings.ToLower(mth)),
 				"responses":   map[string]interface{}{"200": map[string]interface{}{"description": "ok"}},
+			}
+			if noProduces {
+				o["responses"] = map[string]interface{}{"204": map[string]interface{}{"description": "done"}}
 			}
 			if op.form {
 				o["parameters"] = []interface{}{map[string]interface{}{"name": "f", "in": "formData", "type": "string"}}
@@ -526,6 +544,9 @@ func buildEnv(ops []opSpec, global bool, def string, registered []string, specCo
 		"produces": []string{"application/json"},
 		"paths":    paths,
 	}
+	if noProduces {
+		delete(doc, "produces")
+	}
 	if global && len(ops) > 0 && len(ops[0].consumes) > 0 {
 		doc["consumes"] = ops[0].consumes
 	} else if !global && len(specConsumes) > 0 {
@@ -540,8 +561,10 @@ func buildEnv(ops []opSpec, global bool, def string, registered []string, specCo
 		return nil, err
 	}
 	api := untyped.NewAPI(ld).WithoutJSONDefaults()
-	api.DefaultProduces = "application/json"
-	api.RegisterProducer("application/json", runtime.JSONProducer())
+	if !noProduces {
+		api.DefaultProduces = "application/json"
+		api.RegisterProducer("application/json", runtime.JSONProducer())
+	}
 	api.DefaultConsumes = def
 	for _, k := range registered {
 		api.RegisterConsumer(k, &taggedConsumer{tag: k, e: e})
@@ -560,6 +583,22 @@ func buildEnv(ops []opSpec, global bool, def string, registered []string, specCo
 	}
 	e.ctx = middleware.NewContext(ld, api, nil)
 	e.handler = e.ctx.RoutesHandler(nil)
+	// the generated-server twin: same registrations, operation handlers that run RouteInfo, BindValidRequest, Respond
+	g := gen.NewGeneratedAPI(api)
+	op := gen.GeneratedOp{
+		NewBinder: func() middleware.RequestBinder { return &recBinder{e: e} },
+		Handle: func(*http.Request, middleware.RequestBinder, interface{}) interface{} {
+			return map[string]string{"ok": "1"}
+		},
+	}
+	for i := range ops {
+		for _, mth := range methods {
+			g.Operation(mth, fmt.Sprintf("/o%d", i), op)
+		}
+	}
+	e.rctx = middleware.NewRoutableContext(ld, g, nil)
+	g.SetContext(e.rctx)
+	e.rhandler = e.rctx.RoutesHandler(nil)
 	return e, nil
 }
 
@@ -622,6 +661,11 @@ func (e *env) startServer() {
 		return
 	}
 	e.srv = httptest.NewServer(http.HandlerFunc(func(w http.ResponseWriter, r *http.Request) {
+		if r.Header.Get("X-Verif-Entry") == "2r" {
+			r.Header.Del("X-Verif-Entry")
+			e.rhandler.ServeHTTP(w, r)
+			return
+		}
 		if r.Header.Get("X-Verif-Entry") == "2" {
 			r.Header.Del("X-Verif-Entry")
 			st, noRoute, errText := e.entry2(r)
@@ -677,6 +721,12 @@ func memRequest(c *Case, path string) *http.Request {
 		r.ContentLength = -1
 		r.TransferEncoding = []string{"chunked"}
 		r.Body = io.NopCloser(bytes.NewReader(nil))
+	case "unknown-length": // an HTTP/2 or close-delimited body: length unknown, no transfer coding
+		r.ContentLength = -1
+		r.Body = io.NopCloser(bytes.NewReader(p))
+	case "unknown-length-empty":
+		r.ContentLength = -1
+		r.Body = io.NopCloser(bytes.NewReader(nil))
 	case "cl0+hdr":
 		r.ContentLength = 0
 		r.Header["Content-Length"] = []string{"0"}
@@ -716,6 +766,9 @@ func (e *env) exec(c *Case, opIdx int, entry int) *observation {
 		}
 		if entry == 2 {
 			req.Header.Set("X-Verif-Entry", "2")
+			if c.Entry2 == "routable" {
+				req.Header.Set("X-Verif-Entry", "2r")
+			}
 		}
 		res, err := e.cli.Do(req)
 		if err != nil {
@@ -730,9 +783,13 @@ func (e *env) exec(c *Case, opIdx int, entry int) *observation {
 		return o
 	}
 	r := memRequest(c, path)
-	if entry == 1 {
+	if entry == 1 || c.Entry2 == "routable" {
+		h := e.handler
+		if entry == 2 {
+			h = e.rhandler
+		}
 		rec := httptest.NewRecorder()
-		pv, st := mon.Catch(func() { e.handler.ServeHTTP(rec, r) })
+		pv, st := mon.Catch(func() { h.ServeHTTP(rec, r) })
 		if pv != nil {
 			o.Panic = fmt.Sprintf("%v\n%s", pv, st)
 			return o
@@ -808,6 +865,12 @@ func (e *expectation) extraFeature(c *Case) string {
 	if c.HasCT && c.HasCT2 {
 		f += "+second-content-type-line"
 	}
+	if c.NoProduces {
+		f += "+operation-that-produces-nothing"
+	}
+	if c.BodyMode == "unknown-length" || c.BodyMode == "unknown-length-empty" {
+		f += "+unknown-length-without-transfer-coding"
+	}
 	return f
 }
 
@@ -841,8 +904,13 @@ func judgeEntry(c *Case, e *expectation, o *observation) []finding {
 	add := func(code, feature, format string, args ...interface{}) {
 		fs = append(fs, finding{code, feature, fmt.Sprintf(format, args...)})
 	}
-	if o.Transport != "" || o.NoRoute {
+	if o.Transport != "" {
 		return nil // harness-level trouble, counted by the caller
+	}
+	if o.Panic == "" && (o.NoRoute || o.Status == http.StatusNotFound || o.Status == http.StatusMethodNotAllowed) {
+		// every case goes to a path and method the description declares
+		add("declared-operation-not-routed", c.Method+e.extraFeature(c), "%s to a declared operation: status %d, route found by RouteInfo=%v (%s)", c.Method, o.Status, !o.NoRoute, o.Err)
+		return fs
 	}
 	if o.Panic != "" {
 		feat := e.verdict
@@ -1036,9 +1104,15 @@ func judge(c *Case, e *expectation, o1, o2 *observation) []finding {
 		f.text = where + ": " + f.text
 		out = append(out, f)
 	}
+	// what only the generated-server entry point shows, or what the two disagree on, names the way that entry was driven
+	rsuf, where2 := "", "BindValidRequest"
+	if c.Entry2 == "routable" {
+		rsuf, where2 = "+routable-context", "BindValidRequest (operation handler of a RoutableAPI on NewRoutableContext)"
+	}
 	for _, f := range f2 {
 		if !in1[key(f)] {
-			f.text = "BindValidRequest: " + f.text
+			f.text = where2 + ": " + f.text
+			f.feature += rsuf
 			out = append(out, f)
 		}
 	}
@@ -1052,8 +1126,9 @@ func judge(c *Case, e *expectation, o1, o2 *observation) []finding {
 			feat = e.admitFeature(c)
 		}
 		c1, c2 := outcomeClass(o1), outcomeClass(o2)
+		feat += rsuf
 		if c1 != c2 {
-			out = append(out, finding{"entry-points-disagree", feat, fmt.Sprintf("untyped pipeline: %s (%s); BindValidRequest: %s (%s)", c1, o1.Err, c2, o2.Err)})
+			out = append(out, finding{"entry-points-disagree", feat, fmt.Sprintf("untyped pipeline: %s (%s); %s: %s (%s)", c1, o1.Err, where2, c2, o2.Err)})
 		} else if c1 == "accepted" && e.hasBody && !c.NoBodyParam && !c.FormParam {
 			// same consumer picked: what entry 1 ran vs what entry 2 found in route.Consumer
 			t1 := "<none>"
@@ -1077,7 +1152,7 @@ func fingerprint(c *Case, e *expectation) string {
 	if c.HasCT {
 		sp = spelling(string(c.CT))
 	}
-	return strings.Join([]string{c.Shape, strconv.FormatBool(c.Default != ""), strconv.FormatBool(c.Global), e.verdict, e.admit, e.kind.String(), sp, c.BodyMode, c.Method, e.accept, strconv.FormatBool(c.NoBodyParam), strconv.FormatBool(c.FormParam), strconv.FormatBool(len(c.SpecConsumes) > 0), strconv.FormatBool(c.HasCT2)}, "|")
+	return strings.Join([]string{c.Shape, strconv.FormatBool(c.Default != ""), strconv.FormatBool(c.Global), e.verdict, e.admit, e.kind.String(), sp, c.BodyMode, c.Method, e.accept, strconv.FormatBool(c.NoBodyParam), strconv.FormatBool(c.FormParam), strconv.FormatBool(len(c.SpecConsumes) > 0), strconv.FormatBool(c.HasCT2), strconv.FormatBool(c.NoProduces), c.Entry2}, "|")
 }
 
 func shapeOf(consumes []string) string {
@@ -1138,6 +1213,12 @@ func evalOn(m *mon.M, e *env, opIdx int, c *Case) ([]finding, *observation, *obs
 	if c.HasCT && c.HasCT2 {
 		m.Class("second-content-type-line:" + ex.verdict)
 	}
+	if c.NoProduces {
+		m.Class("operation-that-produces-nothing:" + ex.verdict)
+	}
+	if c.Entry2 == "routable" {
+		m.Class("entry2-on-routable-context:" + ex.verdict)
+	}
 	if ex.accept != "absent" {
 		m.Class("expect:" + ex.verdict + "/accept-" + ex.accept)
 	}
@@ -1162,7 +1243,7 @@ type sample struct {
 
 // runCase executes one case in isolation (its own description with the single operation) and reports.
 func runCase(m *mon.M, c *Case) int {
-	e, err := buildEnv([]opSpec{{consumes: c.Consumes, noParam: c.NoBodyParam, form: c.FormParam}}, c.Global, c.Default, c.Registered, c.SpecConsumes...)
+	e, err := buildEnv([]opSpec{{consumes: c.Consumes, noParam: c.NoBodyParam, form: c.FormParam}}, c.Global, c.Default, c.Registered, c.NoProduces, c.SpecConsumes...)
 	if err != nil {
 		m.Class("env-build-failed")
 		return 0
